@@ -212,11 +212,13 @@ def rand_rtcp(rng, ssrc):
     return rtcp_packet(ssrc, rand_key(rng, n), pt=rng.choice([200, 201, 202]))
 
 
-def replay_history(rng, tier, rtcp=False, n_ssrc=None, steps=None, common_roc=None, damaged=0.0):
+def replay_history(rng, tier, rtcp=False, n_ssrc=None, steps=None, common_roc=None, damaged=0.0, rekey=0.0):
     """sender session 1 / receiver session 2; adversarial delivery order.  Annotations:
        # S <ssrc> <idx>            after a protect (true index of the packet just made)
-       # D <ssrc> <idx> <line>     after an unprotect delivering the packet made at <line>"""
-    wildcard = rng.random() < 0.4 and common_roc is None
+       # D <ssrc> <idx> <line>     after an unprotect delivering the packet made at <line>
+       rekey: probability per step of srtp_update on both sessions with the unchanged policies (index state is kept by a
+       re-key; packets already delivered are not delivered again afterwards: known finding update-clears-rtp-replay-window)"""
+    wildcard = rng.random() < 0.4 and common_roc is None and not rekey
     n_ssrc = n_ssrc or rng.choice([1, 1, 2, 3])
     ssrcs = [rng.randrange(2, 1 << 32) for _ in range(n_ssrc)]
     ws = rng.choice([0, 64, 65, 96, 127, 128, 1024, 32767])
@@ -240,8 +242,14 @@ def replay_history(rng, tier, rtcp=False, n_ssrc=None, steps=None, common_roc=No
     pool = {s: [] for s in ssrcs}           # (line, idx)
     start = {s: rng.choice([0, 1, 100, 32767, 32768, 65000, 65535]) for s in ssrcs}
     steps = steps or (80 if tier == "quick" else 600)
+    delivered = set()
     for _ in range(steps):
         s = rng.choice(ssrcs)
+        if rekey and not wildcard and rng.random() < rekey and all(pool[x] for x in ssrcs):
+            L += [f"update 1 {ids}", f"update 2 {ids}", "# U"]
+            for x in ssrcs:
+                pool[x] = [e for e in pool[x] if e[0] not in delivered]
+            continue
         if rtcp:
             if not pool[s] or rng.random() < 0.45:
                 if pool[s] and rng.random() < 0.08:
@@ -273,6 +281,7 @@ def replay_history(rng, tier, rtcp=False, n_ssrc=None, steps=None, common_roc=No
                     # a damaged copy arrives first (rejected; must leave the stream's index state alone)
                     L.append(pkt_op("unprotect", 2, f"@{line:x}~{rng.randrange(96, 8 * 28):x}", cap=100)); L.append("# X")
                 L.append(pkt_op("unprotect", 2, f"@{line:x}", cap=100)); L.append(f"# D {s:x} {idx:x} {line:x}")
+                delivered.add(line)
                 if rng.random() < 0.2:
                     L.append(f"getroc 2 {H(s)}"); L.append(f"# R {s:x}")
     L += ["dealloc 1", "dealloc 2"]
@@ -290,12 +299,24 @@ def replay_monitor(script, c, rtcp=False):
             ws = int(l.split()[20], 16); break
     refs = {}
     base = {}
+    shi = {}
     for i, l in enumerate(sl, 1):
         t = l.split()
         if len(t) < 2 or t[0] != "#":
             continue
         if t[1] == "C":
             base[t[2]] = int(t[3], 16) << 16
+        elif t[1] == "S" and not rtcp:
+            # the sender derives the index the generator intended: a sequence number less than 2^15 ahead of the highest one it
+            # has processed is protected (status ok) — also right after a re-key, which keeps the index
+            o = out.get(i - 1, [])
+            idx = int(t[3], 16)
+            prev = shi.get(t[2])
+            if prev is not None and 0 < idx - prev < 32768 and len(o) > 2 and int(o[2], 16) in (9, 10):
+                hits.append({"what": "sender refuses an in-order packet as a replay: its index estimate has left the ROC it was following",
+                             "signature": "sender-index-out-of-sync", "detail": f"line {i-1}: index {idx:x} after {prev:x}: status {o[2]}"}); return hits
+            if len(o) > 2 and int(o[2], 16) == 0:
+                shi[t[2]] = max(idx, prev or 0)
         elif t[1] == "D":
             s, idx, line = t[2], int(t[3], 16), int(t[4], 16)
             src = out.get(line, [])
